@@ -2,6 +2,7 @@ package main
 
 import (
 	"fmt"
+	"go/types"
 	"sort"
 	"strings"
 
@@ -81,7 +82,7 @@ func ruleC18(r *Report) {
 		opaque[f] = true
 	}
 	policy := func(f *ssa.Function) bool {
-		return p.InLibrary(f) && f.Pkg != nil && f.Pkg.Pkg.Path() == modPath && !opaque[f] && (errIndex(f) >= 0 || isPredicate(f))
+		return p.InLibrary(f) && f.Pkg != nil && f.Pkg.Pkg.Path() == modPath && !opaque[f] && (errIndex(f) >= 0 || isPredicate(f) || returnsResultStruct(f))
 	}
 	entries := []*ssa.Function{
 		p.MustFunc("saml", "ServiceProvider", "ValidateLogoutResponseForm"),
@@ -256,6 +257,11 @@ func isDocumentRoot(p *Prog, fc *FuncCtx, v ssa.Value, depth int) bool {
 	if depth > 5 {
 		return false
 	}
+	if ld, isLoad := v.(*ssa.UnOp); isLoad {
+		if c, idx, ok := callComponent(ld); ok && idx < 0 {
+			return isDocumentRootComponent(p, fc, c, idx, depth)
+		}
+	}
 	switch x := Resolve(v).(type) {
 	case *ssa.Call:
 		scf := x.Call.StaticCallee()
@@ -282,6 +288,11 @@ func isDocumentRoot(p *Prog, fc *FuncCtx, v ssa.Value, depth int) bool {
 				}
 			}
 			return n > 0
+		}
+	case *ssa.Field:
+		// the element field of a helper's result struct
+		if c, idx, ok := callComponent(x); ok {
+			return isDocumentRootComponent(p, fc, c, idx, depth)
 		}
 	case *ssa.Extract:
 		if x.Index == 0 {
@@ -314,4 +325,47 @@ func isDocumentRoot(p *Prog, fc *FuncCtx, v ssa.Value, depth int) bool {
 		return true
 	}
 	return false
+}
+
+// returnsResultStruct: the function returns one unexported struct with an error-typed field (a (value, err) pair written
+// as a struct).
+func returnsResultStruct(f *ssa.Function) bool {
+	res := f.Signature.Results()
+	if res.Len() != 1 {
+		return false
+	}
+	st, ok := res.At(0).Type().Underlying().(*types.Struct)
+	if !ok {
+		return false
+	}
+	for k := 0; k < st.NumFields(); k++ {
+		if types.TypeString(st.Field(k).Type(), nil) == "error" {
+			return true
+		}
+	}
+	return false
+}
+
+func isDocumentRootComponent(p *Prog, fc *FuncCtx, c *ssa.Call, idx int, depth int) bool {
+	scf := c.Call.StaticCallee()
+	if scf == nil || !p.InModule(scf) || len(scf.Blocks) == 0 {
+		return false
+	}
+	sub := fc.A.Ctx(scf)
+	n := 0
+	for _, ret := range sub.Returns() {
+		rc := retComponent(ret, idx)
+		if rc == nil {
+			return false
+		}
+		rv := Resolve(rc)
+		if isNilConst(rv) {
+			continue
+		}
+		n++
+		if !isDocumentRoot(p, sub, rv, depth+1) {
+			return false
+		}
+	}
+	return n > 0
 }
